@@ -2,11 +2,12 @@
 
 Model:   Dom.tla has value semantics: every action of Trace_Dom changes exactly one tree of
          the state; ser / cmp / repr leave `trees` unchanged.
-Dir. A:  interleavings over THREE live trees created by every route - constructor defaults,
+Dir. A:  Gen_Dom behaviours (TLC walks of the operation machine over up to three live trees) and seeded
+         random interleavings over THREE live trees created by every route - constructor defaults,
          keyword construction, add_change/add_file, repeated parses through ONE
          DiffXDOMReader, repeated write_stream through ONE DiffXDOMWriter - of in-place
-         metadata mutation, options[...] mutation, typed assignment, serialise (twice),
-         compare and repr.
+         metadata mutation (also nested), options[...] mutation, typed assignment,
+         generate_stats, serialise (twice), compare and repr.
 Dir. B:  Trace_Dom: after EVERY step the snapshot of ALL live trees must equal the
          specification state (so a step on one tree that disturbs another, or an observer
          that mutates, is caught at that step); two serialisations of one tree are equal.
@@ -33,7 +34,9 @@ def random_step(h, rng):
     fi = rng.randint(0, len(t.changes[ci - 1].files)) if ci else 0
     lvl = 0 if ci == 0 else (1 if fi == 0 else 2)
     if r < 0.22:
-        h.mut(tid, ci, fi, rng.choice(['k', 'stats', 'é', 'a']), rng.choice([1, 'v', None, {'n': [1]}, []]))
+        k = rng.choice(['k', 'stats', 'é', 'a'])
+        h.mut(tid, ci, fi, k, rng.choice([{'custom': 1}, {'insertions': 7, 'x': None}]) if k == 'stats'
+              else rng.choice([1, 'v', None, {'n': [1]}, []]))
     elif r < 0.36:
         sec = rng.choice(['self', 'meta'] + (['pre'] if lvl < 2 else ['diff']))
         if rng.random() < 0.25:
@@ -55,7 +58,11 @@ def random_step(h, rng):
             h.ser(tid, same_as=bytes(e['bytes']))
             if len(h.trees) < 4 and rng.random() < 0.5:
                 h.parse(bytes(e['bytes']))
-    elif r < 0.92:
+    elif r < 0.86:
+        h.stats(tid)
+    elif r < 0.89:
+        h.mut2(tid, ci, fi, 'stats', *rng.choice([('insertions', 99), ('custom', 'x'), ('custom', 3)]))
+    elif r < 0.95:
         h.cmp(tid, rng.randint(1, nt))
     else:
         h.repr(tid)
@@ -66,7 +73,7 @@ def run(run, replay=None):
     quick = run.tier == 'quick'
     cat = Catalog()
     traces = []
-    for n in range(500 if quick else 12000):
+    for n in range(300 if quick else 8000):
         h = domdriver.History(cat, shared_reader=True, shared_writer=rng.random() < 0.7)
         h.new()
         h.new(**domgen.rand_container_attrs(rng, 0))
@@ -78,6 +85,19 @@ def run(run, replay=None):
                   nontrivial=len(h.trees) >= 3)
         if n in (2, 250):
             run.sample({'live_trees': len(h.trees), 'steps': [(e['k'], e['tid']) for e in h.ev]})
+    # histories enumerated / walked by TLC (Gen_Dom), concretised against the real trees
+    from harness import gen
+    behs = gen.behaviours('Gen_Dom', {'MaxLen': 3, 'MaxTrees': 2, 'NAttr': 2, 'NVal': 1}, run=run) if not quick else []
+    behs += gen.behaviours('Gen_Dom', {'MaxLen': 14 if quick else 24, 'MaxTrees': 3, 'NAttr': 14, 'NVal': 5},
+                           simulate=12 if quick else 300, depth=15 if quick else 25, seed=run.seed + 5, run=run,
+                           limit=350 if quick else 8000)
+    for b in behs:
+        h = domdriver.History(cat, shared_reader=True, shared_writer=True)
+        domgen.run_history(h, b, rng)
+        if h.ev:
+            traces.append(h.trace(len(traces), CHK))
+            run.count(repr([(e['k'], e['tid'], e['ci'], e['fi'], e['name'], e['sec']) for e in h.ev]),
+                      nontrivial=len(h.trees) >= 2)
     can = _dcommon.dom_canaries(traces, rng)
     run.judge('Trace_Dom', traces + can, cat.tables(), canary_ids=[c['id'] for c in can], describe=describe)
     return run.finish(
